@@ -30,6 +30,7 @@ pub enum ExecutionError {
     NotSupportedOperation,
     JoinNotSupported,
     FailOpenFile(String),
+    FailReadFile(String),
     CannotCreateArrayOfNullType,
     DistinctRequiresColumn
 }
@@ -63,6 +64,7 @@ impl std::fmt::Display for ExecutionError {
             ExecutionError::NotSupportedOperation => { write!(f, "Not a supported operation") }
             ExecutionError::JoinNotSupported => { write!(f, "Join clause not supported") },
             ExecutionError::FailOpenFile(err) => { write!(f, "Failed open file due to: {}", err) },
+            ExecutionError::FailReadFile(err) => { write!(f, "Failed reading file due to: {}", err) },
             ExecutionError::CannotCreateArrayOfNullType => { write!(f, "Cannot create array of null type") },
             ExecutionError::DistinctRequiresColumn => { write!(f, "COUNT(DISTINCT) requires a column") },
         }
